@@ -63,9 +63,10 @@ CHECKS = {
    ref="DESIGN.md 7 C09"),
  "C10": dict(
    text="Theorems (closed): C10_spec_total - the ordered-outcomes semantics is total on call-free patterns (inner induction on |text|-position; the zero-width rejection is what makes "
-        "a continued iteration consume); C10_find_terminates - hence the VM's `find all` returns within a finite step budget on every text. Tie: exhaustive nullable programs to "
+        "a continued iteration consume); C10_find_terminates - hence the VM's `find all` returns within a finite step budget on every text; C10_spec_total_guarded_recursion - the semantics is total on every pattern whose calls go to subroutines in whose bodies each call sits after something that always consumes input (guarded recursion), "
+        "which with C09_find_returns_when_defined gives termination of the VM there too. Tie: exhaustive nullable programs to "
         "depth 3 x all short texts must return whenever the model does.",
-   note="Guarded recursion: termination follows whenever the specification is defined (C09_find_returns_when_defined) but totality of the specification under recursion is not proved (partial). "
+   note="Guardedness is stated semantically for the guard (all its outcomes consume) and syntactically for the position of the call; unnamed loops and predicate-free subroutines as in the call-free theorem. "
         "Exponential backtracking is termination; cases where the model exceeds its own step bound are reported as 'both expensive', not as hangs.",
    technique="Coq proof (well-founded measure on remaining text) + exhaustive small-scope enumeration of nullable loop nests",
    ref="DESIGN.md 7 C10"),
